@@ -14,10 +14,12 @@ starts of its aliases (default marker if there is none); the same numbers must a
 survivor's row of `variable_metadata_function`.
 
 Correspondence: the Lean model `PymocaVerif.Model.AliasMerge` (driver `drv_c16`) folds the merge
-step over the aliases in the iteration order observed on the real set object and must reproduce every
-attribute exactly (including which start is adopted and the resulting `python_type`); a second
-stream links two already merged classes with a late equation and a second `simplify` (the
-"already handled in a previous pass" branch), modelled by the `handled` flag of the step.
+step over the aliases and must reproduce min/max/nominal/fixed exactly; these do not depend on the
+(undefined) iteration order of the Python set (theorem merge_perm_invariant).  The adopted start and the
+resulting `python_type` do: they must be one of the model's order-independent choices (`startChoices`,
+theorem start_admissible_any_order).  Further streams link already merged classes in a later pass (the
+"already handled in a previous pass" branch; each pass is checked from the attributes the previous one
+really left) and run the same structures on arrays with expand_vectors.
 """
 import json
 from fractions import Fraction
@@ -36,8 +38,8 @@ TRUSTED = ["CasADi's fmax/fmin/negation on floats and MX, and evaluation of MX f
            "AliasRelation (property C17) supplies the classes and signs; here only their use by the merge loop is modelled"]
 ASSUMPTIONS = ["attribute values are finite dyadic rationals, +-inf defaults, or k*p+c of one Real parameter (no NaN bounds)",
                "every class has at most one state/input member (two of them are never aliased by the code)",
-               "the iteration order of the Python set of aliases is read off the surviving Variable's `aliases` set (same object "
-               "the loop iterated); the property itself is order-independent except for which explicit start is adopted",
+               "no assumption on the iteration order of the Python set of aliases: order-dependent outcomes (adopted start, "
+               "python_type) are compared against the set of outcomes the model allows",
                "fixed attributes are Booleans (the code folds them with fmax over 0/1)"]
 
 FORMS_POS = ["{a} = {b}", "{b} = {a}", "{a} - {b} = {z}", "{z} = {a} - {b}", "-{a} = -{b}", "2*{a} = 2*{b}"]
@@ -524,10 +526,21 @@ def signed_lookup():
     return _SIGNED_LOOKUP
 
 
-def model_pass(drv, state, obs, old):
-    """One `detect_aliases` pass of the model on the attribute table `state` (name -> attrs) for the classes and
-    iteration orders observed in `obs`; `old` is the observation of the previous pass (None in the first):
-    it gives what the loop reads from `old_alias_relation`.  Returns the new table."""
+def obs_attrs(o, k):
+    """attributes of an observed variable at parameter vector number k, in the driver's JSON form"""
+    got = {a: o["attrs"][a]["v"][k] for a in MERGED}
+    return {"min": xj(got["min"]), "max": xj(got["max"]), "nominal": xj(got["nominal"]),
+            "fixed": got["fixed"] != 0, "start": None if got["start"] == "dflt" else xj(got["start"]),
+            "ptype": o["ptype"]}
+
+
+def model_pass(ctx, rep, drv, state, obs, old, k):
+    """One `detect_aliases` pass, checked against the model: `state` is the attribute table (name -> attrs) before
+    the pass, `obs` the observation after it, `old` the observation before it (None in the first pass: gives
+    what the loop reads from `old_alias_relation`).  The set of aliases has no defined iteration order, so
+    min/max/nominal/fixed (order-independent: theorem merge_perm_invariant) must equal the model's fold exactly,
+    and start / python_type must be one of the model's order-independent choices (startChoices: theorem
+    start_admissible_any_order).  Returns the set of names left after the pass, or None after a disagreement."""
     old_canon, old_multi = set(), set()
     if old is not None:
         for s, o in old["vars"].items():
@@ -535,29 +548,47 @@ def model_pass(drv, state, obs, old):
                 old_canon.add(s)
                 old_multi.add(s)
                 old_multi.update(a.lstrip("-") for a in o["aliases"])
-    new = dict(state)
+    left = set(state)
     gone = {"min": "-inf", "max": "inf", "nominal": [0, 1], "fixed": False, "start": None, "ptype": "float"}
     for s, o in obs["vars"].items():
         if not o["aliases"]:
             continue
+        if s not in state:
+            ctx.disagreement("merge.survivors", rep, "no record of canonical " + s, "impl kept it")
+            return None
         al = []
-        for a in o["aliases"]:
+        for a in sorted(o["aliases"]):
             nm = a.lstrip("-")
             negd = a.startswith("-")
             al.append({"neg": negd, "oldMulti": nm in old_multi,
                        "inCanon": nm in old_canon and not (negd and signed_lookup()),
-                       "attrs": new.get(nm, gone)})
-        ans = drv.ask({"op": "merge", "canon": new[s], "aliases": al})
+                       "attrs": state.get(nm, gone)})
+        ans = drv.ask({"op": "merge", "canon": state[s], "aliases": al})
         if not ans.get("ok"):
             raise HarnessError("drv_c16 rejected a merge request: %s" % ans)
-        for e, a, skipped in zip(al, o["aliases"], ans["skipped"]):
+        for a, skipped in zip(sorted(o["aliases"]), ans["skipped"]):
             nm = a.lstrip("-")
             if not skipped:
-                if nm not in new:
+                if nm not in left:
                     raise HarnessError("alias %s is merged by the model but has no attribute record" % nm)
-                del new[nm]         # `del all_states[alias]`
-        new[s] = ans["merged"]
-    return new
+                left.discard(nm)         # `del all_states[alias]`
+        m, impl = ans["merged"], obs_attrs(o, k)
+        for f in ("min", "max", "nominal", "fixed"):
+            if m[f] != impl[f]:
+                ctx.disagreement("merge", dict(rep, at=k, var=s, field=f), m, impl)
+                return None
+        if impl["start"] not in ans["starts"]:
+            ctx.disagreement("merge.start", dict(rep, at=k, var=s), ans["starts"], impl["start"])
+            return None
+        if impl["ptype"] not in ans["ptypes"]:
+            ctx.disagreement("merge.ptype", dict(rep, at=k, var=s), ans["ptypes"], impl["ptype"])
+            return None
+    # variables that are not canonical of anything keep their attributes
+    for s, o in obs["vars"].items():
+        if not o["aliases"] and s in state and obs_attrs(o, k) != state[s]:
+            ctx.disagreement("merge.untouched", dict(rep, at=k, var=s), state[s], obs_attrs(o, k))
+            return None
+    return left
 
 
 def compare_model(ctx, case, res, drv):
@@ -567,26 +598,23 @@ def compare_model(ctx, case, res, drv):
     pvecs = [[a09.jx(x) for x in pv] for pv in case["pvecs"]]
     for k, pv in enumerate(pvecs):
         state = {n: jattrs(declared(v, pv), pt[v["type"]]) for n, v in allv.items()}
-        state = model_pass(drv, state, res["pass1"], None)
-        if case["late"]:
-            state = model_pass(drv, state, res["final"], res["pass1"])
-        if case.get("kc"):
-            state.pop(case["kc"]["c"], None)
-        for s, o in res["final"]["vars"].items():
-            if s not in state:
-                ctx.disagreement("merge.survivors", rep, "model eliminated " + s, "impl kept it")
-                return
-            m = state[s]
-            got = {a: o["attrs"][a]["v"][k] for a in MERGED}
-            impl = {"min": xj(got["min"]), "max": xj(got["max"]), "nominal": xj(got["nominal"]),
-                    "fixed": got["fixed"] != 0, "start": None if got["start"] == "dflt" else xj(got["start"]),
-                    "ptype": o["ptype"]}
-            if m != impl:
-                ctx.disagreement("merge", dict(rep, at=k, var=s), m, impl)
-                return
-        if sorted(state) != sorted(res["final"]["vars"]):
-            ctx.disagreement("merge.survivors", rep, sorted(state), sorted(res["final"]["vars"]))
+        left = model_pass(ctx, rep, drv, state, res["pass1"], None, k)
+        if left is None:
             return
+        if sorted(left) != sorted(res["pass1"]["vars"]):
+            ctx.disagreement("merge.survivors", rep, sorted(left), sorted(res["pass1"]["vars"]))
+            return
+        if case["late"]:
+            # the later pass starts from what the first pass really left (which start was adopted is the code's choice)
+            state = {s: obs_attrs(o, k) for s, o in res["pass1"]["vars"].items()}
+            left = model_pass(ctx, rep, drv, state, res["final"], res["pass1"], k)
+            if left is None:
+                return
+            if case.get("kc"):
+                left.discard(case["kc"]["c"])
+            if sorted(left) != sorted(res["final"]["vars"]):
+                ctx.disagreement("merge.survivors", rep, sorted(left), sorted(res["final"]["vars"]))
+                return
 
 
 # ---- one case -------------------------------------------------------------------------------
